@@ -53,11 +53,14 @@ class FactBase:
         self.dir = directory
         self.renamed = {}
         self._load(directory, None)
+        self.field_renames = {}
         if renames:
             mp = self._detect_renames()
-            if mp:
-                self.renamed = mp
-                self._load(directory, mp)
+            fr = dict(self.field_renames)
+            if mp or fr:
+                self.renamed = dict(mp)
+                self.renamed.update({"field " + k: "field " + v for k, v in fr.items()})
+                self._load(directory, mp, fr)
 
     def _detect_renames(self):
         """{new path: old path} for functions of the workspace that were renamed or moved since the inventory
@@ -68,6 +71,26 @@ class FactBase:
         if not os.path.exists(kp):
             return {}
         known = json.load(open(kp))
+        known_adts = known.pop("__adts__", {})
+        # renamed private fields: a struct of the inventory whose fields have the same types in the same order, with a name that is
+        # new, and that no other struct of the workspace uses for a field
+        all_field_names = {}
+        for p_, a in self.adts.items():
+            for v in a.get("variants", []):
+                for f in v.get("fields", []):
+                    all_field_names.setdefault(f["name"], set()).add(p_)
+        self.field_renames = {}
+        for p_, old_fields in known_adts.items():
+            a = self.adts.get(p_)
+            if a is None or len(a.get("variants", [])) != 1:
+                continue
+            cur = [[f["name"], f["ty"]] for f in a["variants"][0]["fields"]]
+            if len(cur) != len(old_fields) or [t for _, t in cur] != [t for _, t in old_fields]:
+                continue
+            old_names = {n for n, _ in old_fields}
+            for (n_new, _), (n_old, _) in zip(cur, old_fields):
+                if n_new != n_old and n_new not in old_names and all_field_names.get(n_new) == {p_} and not n_new.isdigit():
+                    self.field_renames[n_new] = n_old
         present = {p: it for p, it in self.items.items() if it.kind in ("Fn", "AssocFn") and it.crate in ("rln", "zerokit_utils") and "@" not in p}
         missing = [p for p, e in known.items() if self.cfg in e["cfgs"] and p not in present]
         new = [p for p in present if p not in known]
@@ -89,7 +112,11 @@ class FactBase:
             used.setdefault(n, []).append(o)
         return {n: os_[0] for n, os_ in used.items() if len(os_) == 1}
 
-    def _load(self, directory, renames):
+    def _rename_maps(self):
+        mp = self._detect_renames()
+        return mp, getattr(self, "field_renames", {})
+
+    def _load(self, directory, renames, field_renames=None):
         self.items = {}
         self.adts = {}
         self.aliases = {}
@@ -97,6 +124,10 @@ class FactBase:
         self._canon = None
         self.dups = {}
         rx = None
+        frx = None
+        if field_renames:
+            # field names occur in the facts as whole JSON strings ("name")
+            frx = re.compile("|".join('"' + re.escape(k) + '"' for k in sorted(field_renames, key=len, reverse=True)))
         if renames:
             # longest first, whole path tokens only (a path followed by `::{closure#k}` is renamed with its parent)
             keys = sorted(renames, key=len, reverse=True)
@@ -105,11 +136,16 @@ class FactBase:
             if not fn.endswith(".json"):
                 continue
             with open(os.path.join(directory, fn)) as f:
-                if rx is None:
+                if rx is None and frx is None:
                     d = json.load(f)
                 else:
                     # JSON-escaped text: the paths contain no characters that JSON escapes
-                    d = json.loads(rx.sub(lambda m_: renames[m_.group(0)], f.read()))
+                    txt = f.read()
+                    if rx is not None:
+                        txt = rx.sub(lambda m_: renames[m_.group(0)], txt)
+                    if frx is not None:
+                        txt = frx.sub(lambda m_: '"' + field_renames[m_.group(0)[1:-1]] + '"', txt)
+                    d = json.loads(txt)
             crate = d["crate"]
             self.crates[fn[:-5]] = {"crate": crate, "features": d["features"], "crate_types": d["crate_types"],
                                     "n_items": len(d["items"])}
